@@ -277,12 +277,76 @@ def install(M, knobs, report):
     CS.PathManager.add_path = add_path
     CS.PathManager.remove_path = remove_path
 
+    # every phase-3 analysis has its own store: what it holds when the analysis object is ready is what was added to it
+    # while the object was built (nothing, on the pinned tree), and what the analysis hands to the loader at the end is the
+    # store's content according to the model
+    try:
+        from lian.core import global_semantics as GS
+        orig_p3_init = GS.P3GlobalSemanticAnalysis.__init__
+
+        def p3_init(self, *a, **kw):
+            adds_before = report["stats"].get("c19_adds", 0)
+            orig_p3_init(self, *a, **kw)
+            try:
+                pm = getattr(self, "path_manager", None)
+                if isinstance(pm, CS.PathManager):
+                    bump("c19_analyses_started")
+                    if report["stats"].get("c19_adds", 0) == adds_before:
+                        m = PathModel()
+                        view = {as_tuple(p) for p in pm.paths}
+                        if view != m.S and len(report["c19"]) < 20:
+                            report["c19"].append({"cls": "analysis_store_not_fresh", "after": ["new_analysis", report["stats"]["c19_analyses_started"]],
+                                                  "expected": [], "observed": sorted(view)[:8]})
+                        models[id(pm)] = m          # also drops the model of a collected store whose id() was reused
+                    state["p3_pm"] = pm
+            except Exception:  # noqa
+                bump("c19_monitor_errors")
+        GS.P3GlobalSemanticAnalysis.__init__ = p3_init
+
+        orig_save_cp = L.Loader.save_call_paths_p3
+
+        def save_call_paths_p3(self, paths):
+            try:
+                pm = state.get("p3_pm")
+                if pm is not None and paths is pm.paths:
+                    bump("c19_persisted_sets_checked")
+                    m = models.get(id(pm)) or PathModel()
+                    view = [as_tuple(p) for p in paths]
+                    if (len(view) != len(set(view)) or set(view) != m.S) and len(report["c19"]) < 20:
+                        report["c19"].append({"cls": "persisted_paths_mismatch", "after": ["save_call_paths_p3"],
+                                              "expected": sorted(m.S)[:8], "observed": sorted(set(view))[:8]})
+            except Exception:  # noqa
+                bump("c19_monitor_errors")
+            return orig_save_cp(self, paths)
+        L.Loader.save_call_paths_p3 = save_call_paths_p3
+    except Exception:  # noqa
+        bump("c19_monitor_errors")
+
     # ------------------------------------------------------------------ finaliser: restore from files with a fresh Loader
     def finalise():
         state["wrap"] = False
         EM.EventManager.notify = orig_notify
         # the restore comparison needs the final Loader.export() of a completed run
         report["stats"]["pipeline_loader_seen"] = int(bool(state["loaders"]))
+        # C19, persisted: the call paths a fresh CallPathLoader reads back from the workspace are the store's content
+        try:
+            pm = state.get("p3_pm")
+            if pm is not None and state["loaders"] and not fault and os.environ.get("LIAN_SIM_RUN_STATUS", "ok") == "ok":
+                sub = state["loaders"][-1]._global_call_path_loader
+                fresh_cp = type(sub)(sub.path)
+                if os.path.exists(sub.path):
+                    buf = io.StringIO()
+                    with contextlib.redirect_stdout(buf), contextlib.redirect_stderr(buf):
+                        fresh_cp.restore()
+                view = {as_tuple(p_) for p_ in fresh_cp.all_paths}
+                m = models.get(id(pm)) or PathModel()
+                bump("c19_readbacks_checked")
+                if view != m.S and len(report["c19"]) < 20:
+                    report["c19"].append({"cls": "persisted_readback_mismatch", "after": ["export", "fresh CallPathLoader.restore"],
+                                          "expected": sorted(m.S)[:8], "observed": sorted(view)[:8]})
+        except Exception as e:  # noqa
+            bump("c19_monitor_errors")
+            report["notes"].append(f"c19 readback failed: {e!r}"[:300])
         if not state["loaders"] or not knobs.get("check_restore", True) or os.environ.get("LIAN_SIM_RUN_STATUS", "ok") != "ok":
             report["stats"]["restore_skipped"] = 1
             return report
@@ -407,7 +471,7 @@ def worker_setup():
     return _CTX
 
 
-def gen_invivo_ops(rng, n_modules=None, size=None):
+def gen_invivo_ops(rng, n_modules=None, size=None, p_history=0.35):
     """pure-data description of one in-vivo run: project files + run options + loader knobs."""
     from sim import projgen
     n_modules = n_modules or rng.choice([1, 2, 2, 3])
@@ -444,12 +508,14 @@ def gen_invivo_ops(rng, n_modules=None, size=None):
                 files = projgen.gen_project(rng, 1, 2)
     ops = [{"op": "file", "path": p, "content": files[p]} for p in sorted(files)]
     history = None
-    if lang == "python" and rng.random() < 0.35:
+    if lang == "python" and rng.random() < p_history:
         # the workspace was used before, for a richer project (imports, calls, classes): whatever the new run does not
         # produce must not be readable from the files afterwards.  The workspace directory may be a link (a common way of
         # putting it on a bigger disk).
         prev = projgen.gen_project(rng, 3, 6)
-        history = {"ws": rng.choice(["plain", "symlink", "symlink", "symlink", "symlink_parent"]), "files": [[p_, prev[p_]] for p_ in sorted(prev)],
+        history = {"ws": rng.choice(["plain", "symlink", "symlink", "symlink_sub", "symlink_sub", "symlink_parent"]),
+                   "linked_subdirs": sorted(rng.sample(["semantic_p1", "semantic_p2", "semantic_p3", "frontend"], rng.randint(1, 3))),
+                   "files": [[p_, prev[p_]] for p_ in sorted(prev)],
                    "flags": sorted(set(rng.sample(["--enable-p2", "--graph"], rng.randint(0, 1))))}
         if rng.random() < 0.7:
             # ... and the project under analysis is the same project (same directory, same file names) after an edit that
@@ -526,6 +592,12 @@ def run_ops(ops, timeout=240):
                 os.makedirs(os.path.join(B, "ws"), exist_ok=True)
                 os.makedirs(os.path.join(B, "bigdisk", "lian_ws_data"), exist_ok=True)
                 os.symlink(os.path.join(B, "bigdisk", "lian_ws_data"), os.path.join(B, "ws", "lian_workspace"))
+            elif hist.get("ws") == "symlink_sub":
+                # single output directories of the workspace live on another disk
+                for i_, d_ in enumerate(hist.get("linked_subdirs") or ["semantic_p3"]):
+                    os.makedirs(os.path.join(B, "bigdisk", f"sub{i_}"), exist_ok=True)
+                    os.makedirs(os.path.join(B, "ws", "lian_workspace"), exist_ok=True)
+                    os.symlink(os.path.join(B, "bigdisk", f"sub{i_}"), os.path.join(B, "ws", "lian_workspace", d_))
             elif hist.get("ws") == "symlink_parent":
                 os.makedirs(os.path.join(B, "bigdisk", "wsparent"), exist_ok=True)
                 os.symlink(os.path.join(B, "bigdisk", "wsparent"), os.path.join(B, "ws"))
@@ -540,10 +612,24 @@ def run_ops(ops, timeout=240):
             o0 = lianrun.run_forked(ctx["M"], argv0, B, os.path.join(B, "report0.json"), os.path.join(B, "stdio0.txt"), timeout=timeout,
                                     env={"HOME": home, "MPLCONFIGDIR": os.path.join(home, "mpl")})
             hist_status = o0.get("status")
+        argv2 = None
+        if run.get("second_analysis"):
+            # the same project once more, in the same interpreter, into another workspace
+            knobs["check_restore"] = False
+            argv2 = lianrun.build_argv({"sub": run.get("sub", "run"), "lang": run.get("lang", "python"), "force": True,
+                                        "workspace": os.path.join(B, "ws2"), "inputs": [proj], "flags": list(run.get("flags", [])) + extra_flags},
+                                       ctx["settings"])
         out = lianrun.run_forked(ctx["M"], argv, B, os.path.join(B, "report.json"), os.path.join(B, "stdio.txt"),
-                                 before_run=before_run, timeout=timeout,
+                                 before_run=before_run, timeout=timeout, second_argv=argv2,
                                  env={"HOME": home, "MPLCONFIGDIR": os.path.join(home, "mpl")})
         rep = out.pop("report", None) or {}
+        if out.get("status") == "died:71":
+            # the child failed OUTSIDE the analysis (monitor set-up or report writing): a defect of this harness, never a pass
+            try:
+                tail = open(os.path.join(B, "stdio.txt"), errors="replace").read()[-600:]
+            except OSError:
+                tail = ""
+            raise RuntimeError("in-vivo child failed outside the analysis: " + tail)
         if hist:
             rep.setdefault("stats", {})
             rep["stats"]["history_run_" + str(hist_status)] = 1
